@@ -177,10 +177,14 @@ func CheckOrder(sys resolve.System, in, out []V) (bool, string) {
 		}
 	}
 	strict := Distinct(Strings(in))
-	for i := 0; i+1 < len(rest); i++ {
-		c := RefCmp(ss, rest[i].Version, rest[i+1].Version)
-		if c > 0 || (strict && c == 0) {
-			return true, fmt.Sprintf("not ascending: %q before %q", rest[i].Version, rest[i+1].Version)
+	// every pair, not only neighbours: with an intransitive comparison a list can be
+	// locally ascending and still have a later element below an earlier one
+	for i := 0; i < len(rest); i++ {
+		for j := i + 1; j < len(rest); j++ {
+			c := RefCmp(ss, rest[i].Version, rest[j].Version)
+			if c > 0 || (strict && c == 0) {
+				return true, fmt.Sprintf("not ascending: %q before %q", rest[i].Version, rest[j].Version)
+			}
 		}
 	}
 	return false, ""
